@@ -234,3 +234,34 @@ def ob_block_data(ctx, res):
         res.fail("blockData/raw", fn, "uncompressed blocks must be returned as read")
         return
     res.ok(fn, "read_block_data: block.size bytes at block.offset; inflate (zlib) into uncompressBufSize bytes iff that is > 0, cut to the inflated length")
+
+
+def ob_reopen(ctx, res):
+    """C03-R1: a reopened reader reads the same file with the same info and independent position"""
+    RO = "bigtools/src/utils/file/reopen.rs"
+    fn = ctx.ast.fn(RO, "reopen", impl="ReopenableFile")
+    lit = [n for n in walk_no_nested_fn(fn.body) if n.k == "struct" and n["path"].endswith("ReopenableFile")]
+    f = {x["name"]: up(strip(x["e"])) for x in lit[0]["fields"]} if lit else {}
+    if f.get("path") != "self.path" or f.get("file") not in ("File::open(self.path)?", "File::open(&self.path)?"):
+        res.fail("reopen/file", fn, "reopen must open the SAME path again (independent file position); got %s" % f)
+    else:
+        res.ok(fn, "ReopenableFile::reopen: File::open(&self.path), same path")
+    for file, ty in ((RW, "BigWigRead"), (RB, "BigBedRead")):
+        r = ctx.ast.fn(file, "reopen", impl=ty)
+        lit = [n for n in walk_no_nested_fn(r.body) if n.k == "struct" and n["path"].endswith(ty)]
+        f = {x["name"]: up(strip(x["e"])) for x in lit[0]["fields"]} if lit else {}
+        if f.get("info") != "self.info" or f.get("read") != "self.read.reopen()?":
+            res.fail("reopen/%s" % ty, r, "%s::reopen must clone the info and reopen the reader; got %s" % (ty, f))
+        else:
+            res.ok(r, "%s::reopen: info cloned, reader reopened" % ty)
+    c = ctx.ast.fn(R, "reopen", impl="CachedBBIFileRead")
+    if "read: self.read.reopen()?" not in up(c.body):
+        res.fail("reopen/cached", c, "CachedBBIFileRead::reopen must reopen the wrapped reader")
+    else:
+        res.ok(c, "CachedBBIFileRead::reopen: wrapped reader reopened, caches cloned (values are immutable: C03-C1)")
+    # the read path of ReopenableFile forwards to the file
+    for name in ("seek", "read", "read_exact"):
+        f2 = ctx.ast.fn(RO, name, impl="ReopenableFile")
+        t = up(f2.body)
+        if not re.fullmatch(r"\{self\.file\.%s\((\w+)\)\}" % name, t):
+            res.fail("reopen/forward-%s" % name, f2, "ReopenableFile::%s must forward to the file unchanged" % name)
